@@ -7,7 +7,8 @@ from vf.tape import Fail, notrace
 PROPERTY = 'C11'
 
 OPS = ['connect /', 'connect /a', 'connect refused', 'enter room', 'event', 'event+ack', 'binary header only',
-       'binary header + 1 of 2', 'emit with callback (unanswered)', 'malformed', 'client DISCONNECT', 'server disconnect']
+       'binary header + 1 of 2', 'emit with callback (unanswered)', 'emit with callback (answered)', 'malformed',
+       'client DISCONNECT', 'server disconnect']
 
 
 class Boom(RuntimeError):
@@ -17,20 +18,8 @@ class Boom(RuntimeError):
 def residue(w, e, sids):
     """what the server still keeps for transport e / its session ids (list of strings)"""
     s, m = w.s, w.s.manager
-    out = []
-    for ns, rooms in m.rooms.items():
-        for room, bd in rooms.items():
-            for sid, es in bd.items():
-                if es == e or sid in sids:
-                    out.append('rooms[%s][%r][%s]' % (ns, room, sid))
+    out = worlds.client_residue(s, list(sids) + ([e] if e else []))
     for sid in sids:
-        if sid in m.callbacks:
-            out.append('callbacks[%s]' % sid)
-        if sid in getattr(m, 'callback_ids', {}):
-            out.append('callback_ids[%s]' % sid)
-        for ns, lst in m.pending_disconnect.items():
-            if sid in lst:
-                out.append('pending_disconnect[%s]' % ns)
         for ns in ('/', '/a', '/r'):
             if s.rooms(sid, ns):
                 out.append('rooms(%s,%s)' % (sid, ns))
@@ -38,16 +27,12 @@ def residue(w, e, sids):
                 out.append('is_connected(%s,%s)' % (sid, ns))
             if s.get_environ(sid, ns) is not None:
                 out.append('get_environ(%s,%s)' % (sid, ns))
-    if e in s.environ:
-        out.append('environ')
-    if e in s._binary_packet:
-        out.append('_binary_packet')
     return out
 
 
 def comp(r):
     """the component names only (signature)"""
-    return ','.join(sorted({x.split('[')[0].split('(')[0] for x in r}))
+    return ','.join(sorted({x.split('[')[0].split('(')[0].replace('manager.', '').replace('server.', '') for x in r}))
 
 
 def h(t, part):
@@ -131,6 +116,13 @@ def h(t, part):
         elif op == 'emit with callback (unanswered)':
             if w.s.manager.is_connected(live[cur], cur):
                 w.call(w.s.emit('q', 1, to=live[cur], namespace=cur, callback=lambda *a: None))
+        elif op == 'emit with callback (answered)':
+            if w.s.manager.is_connected(live[cur], cur):
+                w.take('e0')
+                w.call(w.s.emit('q', 1, to=live[cur], namespace=cur, callback=lambda *a: None))
+                ev = [p for p in w.take('e0') if not isinstance(p, tuple) and p.packet_type == packet.EVENT]
+                if ev:
+                    w.send('e0', w.P(packet.ACK, data=[1], namespace=cur, id=ev[0].id))
         elif op == 'malformed':
             w.recv('e0', ['x', '9', '2/a', '51-["ev"'][step % 4])
         elif op == 'client DISCONNECT':
